@@ -10,9 +10,7 @@
    c.rcvd   : map[int][]string          rcvd : association list index -> list cid (slice order kept)
    MaxPartialsPerNode                   cap (parameter; instantiated with Gen.Consts)
 
-   The signature bytes kept in roundCache.sigs are not modelled (C12 is about sizes and presence).
-   The duplicate append of the new id on the eviction path (getCache appends id to rcvd[idx] and
-   Append appends it again) is kept exactly as in the code. *)
+   The signature bytes kept in roundCache.sigs are not modelled (C12 is about sizes and presence). *)
 From Coq Require Import ZArith List Bool.
 Import ListNotations.
 Open Scope Z_scope.
@@ -67,36 +65,42 @@ Definition rcvd_of (c : pcache) (idx : Z) : list cid :=
 (* error classes of partialCache.Append *)
 Inductive cerr := COk | CErrIndex | CErrEvictMissing | CPanicEmpty.
 
-(* partialCache.Append(p) for a partial whose IndexOf is [idx] and whose id is [id].
-   getCache is inlined: fast path when the round cache exists; otherwise the cap check on
-   len(rcvd[idx]), eviction of rcvd[idx][0] (error when that round cache no longer exists),
-   flushIndex, rcvd[idx] = append(rcvd[idx][1:], id), delete when empty, new round cache; then
-   round.append(p) and, when it returns true, the (second) append of id to rcvd[idx]. *)
-Definition pc_append (cap : Z) (c : pcache) (idx : Z) (id : cid) : pcache * cerr :=
-  match sigs_of c id with
-  | Some sigs =>
-      if zmem idx sigs then (c, COk)
-      else (mkPC (aset cid_eqb id (sigs ++ [idx]) (rounds c))
-                 (aset Z.eqb idx (rcvd_of c idx ++ [id]) (rcvd c)), COk)
-  | None =>
-      let L := rcvd_of c idx in
-      if cap <=? Z.of_nat (length L) then
-        match L with
-        | [] => (c, CPanicEmpty)          (* rcvd[idx][0] on an empty slice: only if cap <= 0 *)
-        | h :: t =>
-            match sigs_of c h with
-            | None => (c, CErrEvictMissing)
-            | Some hs =>
-                let hs' := zremove idx hs in
-                let rounds1 := if is_nil hs' then adel cid_eqb h (rounds c)
-                               else aset cid_eqb h hs' (rounds c) in
-                (mkPC (aset cid_eqb id [idx] rounds1)
-                      (aset Z.eqb idx ((t ++ [id]) ++ [id]) (rcvd c)), COk)
-            end
+Definition has_entry (c : pcache) (idx : Z) (id : cid) : bool :=
+  match sigs_of c id with Some s => zmem idx s | None => false end.
+
+(* the cap check of getCache: when the signer already has cap entries its oldest id rcvd[idx][0]
+   is dropped: flushIndex(idx) on that round cache (error when it no longer exists), the round cache
+   is deleted when it became empty, rcvd[idx] = rcvd[idx][1:]. Result: the round caches and the
+   signer's remaining ids. *)
+Inductive evres := EvOk (rs : list (cid * list Z)) (L : list cid) | EvErr (e : cerr).
+Definition pc_evict (cap : Z) (c : pcache) (idx : Z) : evres :=
+  let L := rcvd_of c idx in
+  if cap <=? Z.of_nat (length L) then
+    match L with
+    | [] => EvErr CPanicEmpty          (* rcvd[idx][0] on an empty slice: only if cap <= 0 *)
+    | h :: t =>
+        match sigs_of c h with
+        | None => EvErr CErrEvictMissing
+        | Some hs =>
+            let hs' := zremove idx hs in
+            EvOk (if is_nil hs' then adel cid_eqb h (rounds c) else aset cid_eqb h hs' (rounds c)) t
         end
-      else (mkPC (aset cid_eqb id [idx] (rounds c))
-                 (aset Z.eqb idx (L ++ [id]) (rcvd c)), COk)
-  end.
+    end
+  else EvOk (rounds c) L.
+
+(* partialCache.Append(p) for a partial whose IndexOf is [idx] and whose id is [id], getCache
+   inlined: when the round cache exists and already holds idx nothing changes (round.append returns
+   false); otherwise the signer is about to get a new entry, in a new round cache or in one created
+   by another signer: the cap check above, then the round cache is created if needed,
+   round.append(p) stores the partial and id is appended (once) to rcvd[idx]. *)
+Definition pc_append (cap : Z) (c : pcache) (idx : Z) (id : cid) : pcache * cerr :=
+  if has_entry c idx id then (c, COk)
+  else match pc_evict cap c idx with
+       | EvErr e => (c, e)
+       | EvOk rs L =>
+           let old := match aget cid_eqb id rs with Some s => s | None => [] end in
+           (mkPC (aset cid_eqb id (old ++ [idx]) rs) (aset Z.eqb idx (L ++ [id]) (rcvd c)), COk)
+       end.
 
 (* partialCache.FlushRounds(r): every round cache with cache.round <= r is deleted and its id is
    filtered out of rcvd[idx] for every idx in cache.sigs (only those); an emptied rcvd[idx] is
@@ -138,8 +142,6 @@ Fixpoint pc_trace (cap : Z) (c : pcache) (ops : list cop) : list cerr * pcache :
   end.
 
 (* ---- observables ---- *)
-Definition has_entry (c : pcache) (idx : Z) (id : cid) : bool :=
-  match sigs_of c id with Some s => zmem idx s | None => false end.
 (* number of round caches that hold a partial of idx *)
 Definition live_count (c : pcache) (idx : Z) : nat :=
   length (filter (fun e => zmem idx (snd e)) (rounds c)).
